@@ -39,12 +39,13 @@ type Case struct {
 }
 
 type side struct {
-	v     avfs.VFS
-	r     *fsx.Runner
-	dir   string // where the view is rooted, in parent paths ("" for the parent itself)
-	cwd   string // tracked virtual cwd
-	umask int
-	user  int
+	v      avfs.VFS
+	r      *fsx.Runner
+	dir    string // where the view is rooted, in parent paths ("" for the parent itself)
+	cwd    string // tracked virtual cwd
+	umask  int
+	user   int
+	opened map[int]string // slot -> path (in this side's name space) of the handle opened there
 }
 
 type inst struct {
@@ -344,6 +345,18 @@ func (in *inst) step(c *vt.Ctx, st Step) *vt.Deviation {
 		if out.Val != ref.Val && o.K != "Glob" && o.K != "WalkDir" && o.K != "EvalSymlinks" && o.K != "Stat" && o.K != "Lstat" {
 			return mk("value", fmt.Sprintf("%s, the parent on %s gives %s", out, mo, ref))
 		}
+	}
+	if o.K == "Open" && out.Err == "ok" {
+		if s.opened == nil {
+			s.opened = map[int]string{}
+		}
+		s.opened[o.H] = path.Join("/", s.cwd, o.P)
+		if strings.HasPrefix(o.P, "/") {
+			s.opened[o.H] = path.Clean(o.P)
+		}
+	}
+	if o.K == "FChdir" && out.Err == "ok" && s.opened[o.H] != "" {
+		s.cwd = s.opened[o.H] // the working directory set through an open directory
 	}
 	if o.K == "Chdir" && out.Err == "ok" {
 		if strings.HasPrefix(o.P, "/") {
